@@ -136,6 +136,17 @@ def r4_who_may_send(ck, cx):
                                 ok = True
                                 break
                             p = getattr(p, '_parent', None)
+                        if not ok:
+                            # nested function (def) whose name is handed to processIncomingPacket in the enclosing method
+                            q2 = node
+                            while q2 is not None and q2 is not fn.node:
+                                if isinstance(q2, (ast.FunctionDef, ast.AsyncFunctionDef)):
+                                    nm2 = q2.name
+                                    ok = any(isinstance(c2, ast.Call) and callee_name(c2) == 'processIncomingPacket' and
+                                             any(isinstance(a, ast.Name) and a.id == nm2 for a in list(c2.args) + [k.value for k in c2.keywords])
+                                             for c2 in ast.walk(fn.node))
+                                    break
+                                q2 = getattr(q2, '_parent', None)
                         if not ok and lam is not None:
                             # lambda assigned to a local that is then passed as the callback
                             asg = getattr(lam, '_parent', None)
